@@ -46,6 +46,9 @@ def make_factors(kind, names, dims, outcomes, rs):
         k = kind
         if kind == "mixed":
             k = "gate" if rank % 2 == 0 else "mprocess"
+        if kind == "mixed2":
+            # one gate and several measurement processes: a product of measurement processes (multi-axis shape) meets a gate
+            k = "gate" if rank == 0 else "mprocess"
         if k == "state":
             v = np.round(rs.uniform(0.5, 2.0, n), 3)
             objs[s] = State(c, v, is_physicality_required=False)
@@ -111,8 +114,10 @@ def replay(chk, case, rs):
     n = len(names)
     cfg = "n%d:d%s:order%s:tree%s" % (n, "".join(map(str, dims)), "".join(str(names.index(o)) for o in order), str(tree).replace(" ", ""))
     short = "n%d:%s" % (n, "sorted" if list(order) == list(names) else "unsorted")
-    for kind in ("state", "povm", "gate", "mprocess", "mixed", "ensemble"):
-        if kind in ("gate", "mprocess", "mixed") and int(np.prod([d * d for d in dims])) > HS_MAX:
+    for kind in ("state", "povm", "gate", "mprocess", "mixed", "mixed2", "ensemble"):
+        if kind == "mixed2" and n < 3:
+            continue
+        if kind in ("gate", "mprocess", "mixed", "mixed2") and int(np.prod([d * d for d in dims])) > HS_MAX:
             continue      # the library's HS tensor product builds a dense (D^2 x D^2) vec-permutation matrix: D <= 64 only
         if kind == "ensemble" and (n > 2 and int(np.prod([d * d for d in dims])) > 64):
             continue      # one composite system per pair of member states: small systems only
@@ -152,7 +157,7 @@ def replay(chk, case, rs):
             want = expected_hs(names, dims, {s: data[s][1] for s in names})
             if not coords.close(res.hs, want, 1e-12):
                 bad("layout", "HS matrix of the product gate is not the canonical Kronecker arrangement")
-        elif kind in ("mprocess", "mixed"):
+        elif kind in ("mprocess", "mixed", "mixed2"):
             meas = [(s, m) for s, m in zip(names, outcomes) if data[s][0] == "mprocess"]
             shape = list(res.shape)
             counts = [m for _, m in meas]
